@@ -61,6 +61,8 @@ Begin(n) ==
     IN  CASE op.op = "hostmem"    -> done([st EXCEPT !.mems = @ \o <<NewMem(op.pages, op.max, op.shared)>>])
           [] op.op = "hosttable"  -> done([st EXCEPT !.tables = @ \o <<NewTable(op.size)>>])
           [] op.op = "hostglobal" -> done([st EXCEPT !.globals = @ \o <<V(op.t, op.b)>>])
+          \* releasing an instance changes nothing the specification can see (the script does not use it again)
+          [] op.op = "free" -> done(st)
           [] op.op = "instantiate" ->
               LET s2 == Instantiate(M, st, op.binds)
               IN  \* the properties speak about valid modules only: an invalid scenario is refused (an error of whoever produced it)
